@@ -30,27 +30,44 @@ FSTATES = ['pending', 'result', 'exception', 'cancelled']
 
 
 class CountingLoader(loaders.ObjectLoader):
-    """Names generated classes ``custom!<name>`` (unknown to the default loader) and counts look-ups."""
+    """A strict custom loader with its own identifier scheme: generated classes are named ``custom!<name>``, everything else
+    ``custom!!<default identifier>``; an identifier it did not make itself is refused.  Look-ups are counted."""
     loads = 0
     identifies = 0
 
     def load_object(self, identifier):
         type(self).loads += 1
-        if identifier.startswith('custom!'):
+        if isinstance(identifier, str) and identifier.startswith('custom!!'):
+            return loaders.DefaultObjectLoader().load_object(identifier[len('custom!!'):])
+        if isinstance(identifier, str) and identifier.startswith('custom!'):
             try:
                 return getattr(generated, identifier[len('custom!'):])
             except AttributeError:
                 raise ValueError('unknown %s' % identifier)
-        return loaders.DefaultObjectLoader().load_object(identifier)
+        raise ValueError('identifier %r was not made by this loader' % (identifier,))
 
     def identify_object(self, obj):
         type(self).identifies += 1
         if getattr(obj, '__module__', None) == generated.__name__:
             return 'custom!%s' % obj.__name__
-        return loaders.DefaultObjectLoader().identify_object(obj)
+        return 'custom!!' + loaders.DefaultObjectLoader().identify_object(obj)
+
+
+class LenientCountingLoader(CountingLoader):
+    """Also understands the default identifiers (needed where the writer cannot be given a loader, e.g. the PicklePersister)."""
+
+    def load_object(self, identifier):
+        if isinstance(identifier, str) and not identifier.startswith('custom!'):
+            type(self).loads += 1
+            CountingLoader.loads += 1
+            return loaders.DefaultObjectLoader().load_object(identifier)
+        loaded = super().load_object(identifier)
+        CountingLoader.loads += 1
+        return loaded
 
 
 generated.register(CountingLoader, 'CountingLoader')
+generated.register(LenientCountingLoader, 'LenientCountingLoader')
 
 
 def gen_cases(tier, seed):
